@@ -369,6 +369,27 @@ impl Built {
     pub fn size(&self) -> usize {
         self.qr.size
     }
+    /// The row view `qr[r]` (the `Index` implementation, what the crate's own renderers and its documentation use to
+    /// read the matrix) against the `data` field read as size x size rows: both are the same matrix.
+    pub fn index_view_differs(&self) -> Option<String> {
+        let n = self.qr.size;
+        for r in 0..n {
+            let row = match catch(|| self.qr[r].iter().map(|m| m.0).collect::<Vec<u8>>()) {
+                Ok(row) => row,
+                Err(p) => return Some(format!("qr[{}] panicked: {}", r, p)),
+            };
+            if row.len() != n {
+                return Some(format!("qr[{}] has {} modules, size is {}", r, row.len(), n));
+            }
+            for c in 0..n {
+                let m = &self.qr.data[r * n + c];
+                if row[c] != m.0 {
+                    return Some(format!("qr[{}][{}] is {:#04x} but data[{}] is {:#04x}", r, c, row[c], r * n + c, m.0));
+                }
+            }
+        }
+        None
+    }
     pub fn values(&self) -> Vec<bool> {
         let n = self.qr.size;
         self.qr.data[..(n * n).min(self.qr.data.len())].iter().map(|m| m.value()).collect()
